@@ -274,6 +274,33 @@ def run(chk):
     seek_arguments(chk, prog, framed=tinv_methods)
     # VTX
     vtx(chk, prog, collect)
+    # library calls that stayed opaque effects (no MIR, no model): the inventory sees no panic inside them, so each must
+    # be known not to panic for any argument (read in the std / crate documentation), or be one of the external
+    # decoders the statement of what is decided excludes; anything else fails closed
+    TOTAL_LIB = ("alloc::str::<impl str>::to_uppercase", "alloc::vec::from_elem", "aym::AymBackend::new", "byteorder::io::ReadBytesExt::read_",
+                 "core::convert::AsRef::as_ref", "core::fmt::", "core::panicking::", "core::slice::<impl [T]>::copy_from_slice",
+                 "core::str::converts::from_utf8", "num_traits::cast::FromPrimitive::from_u8", "rustzx_core::host::", "std::io::Read::read",
+                 "std::io::Seek::", "delharc::", "miniz_oxide::", "flate2::", "alloc::vec::Vec::<T>::with_capacity", "alloc::vec::Vec::<T, A>::push",
+                 "alloc::vec::Vec::<T, A>::pop", "alloc::vec::Vec::<T, A>::len", "core::iter::", "alloc::string::", "core::slice::<impl [T]>::split",
+                 "alloc::borrow::", "core::clone::", "core::ops::", "core::option::", "core::result::", "core::cmp::", "core::num::", "core::mem::",
+                 "alloc::vec::Vec::<T, A>::as_", "alloc::vec::Vec::<T, A>::is_empty", "alloc::vec::Vec::<T, A>::clear", "alloc::vec::Vec::<T, A>::extend_from_slice",
+                 "alloc::vec::Vec::<T>::new", "core::slice::<impl [T]>::len", "core::slice::<impl [T]>::is_empty", "core::slice::<impl [T]>::iter",
+                 "core::slice::<impl [T]>::fill", "core::slice::<impl [T]>::get", "core::slice::<impl [T]>::first", "core::slice::<impl [T]>::last",
+                 "core::slice::<impl [T]>::contains", "core::slice::<impl [T]>::starts_with", "core::slice::<impl [T]>::ends_with", "core::str::",
+                 "core::convert::", "core::default::", "core::array::", "log::", "alloc::boxed::", "core::ptr::", "core::intrinsics::", "core::hint::")
+    MAY_PANIC = {"step_by", "chunks", "chunks_mut", "chunks_exact", "chunks_exact_mut", "rchunks", "rchunks_mut", "rchunks_exact", "windows",
+                 "split_at", "split_at_mut", "copy_within", "swap", "rotate_left", "rotate_right", "remove", "swap_remove", "insert", "drain",
+                 "split_off", "unwrap", "expect", "unwrap_err", "expect_err", "clone_from_slice", "swap_with_slice", "select_nth_unstable",
+                 "from_digit", "pow", "abs_diff_panic", "div_euclid", "rem_euclid", "ilog2", "ilog10", "array_chunks", "as_chunks_panic"}
+    for k in sorted(lib_effects):
+        kk = k[1:] if k.startswith("<") else k
+        if k.split("::<")[0].split("::")[-1] not in MAY_PANIC and any(kk.startswith(t) or (" as " in k and (" as " + t) in k) for t in TOTAL_LIB):
+            chk.ok()
+            continue
+        entry0, e0, r0 = lib_effects[k][0]
+        chk.undecided_("INVENTORY/library/%s" % k.split("::<")[0], "library call %s (reached from %s) has neither MIR nor a model and is not in the table of calls known "
+                       "not to panic: a panic inside it would not be seen" % (k, sorted(set(x[0] for x in lib_effects[k]))[:3]))
+    chk.count("library-effects", len(lib_effects))
     if os.environ.get('VERIF_DUMP_LIB'):
         for k in sorted(lib_effects):
             print('LIB', k, len(lib_effects[k]), sorted(set(x[0] for x in lib_effects[k]))[:3])
